@@ -5,6 +5,7 @@
 import ErgoProofs.Lemmas.JsonThm
 import ErgoProofs.Lemmas.ReachInv
 import ErgoProofs.Lemmas.CodecInst
+import ErgoProofs.Lemmas.InputThm
 namespace Ergo
 
 /-- the JSON string codec round-trips every valid Unicode text, with the log's HTML-escaping encoder and with the
@@ -91,5 +92,12 @@ theorem C17_line_has_no_control_bytes (ets : Event → String) (e : Event) : ∀
 /-- UTF-8: text survives encoding and (lossy) decoding unchanged -/
 theorem C17_utf8_roundtrip (cs : List Char) : Codec.utf8DecLossy (Codec.utf8Enc cs) = cs :=
   Codec.utf8DecLossy_encoded cs
+
+
+/-- the way in: the JSON document an agent pipes to `new` / `set` for given fields is decoded (`ParseTaskInput`: strict decoder on the bytes of stdin)
+    to exactly those fields, whatever characters title and body hold -/
+theorem C17_stdin_document_roundtrip (t : TaskInput) (hne : Input.taskInputMembers t ≠ []) (tail : Storage.Bytes) (ht : Codec.skipWs tail = []) :
+    Input.parseTaskInput (Input.encTaskInput t ++ tail) = some t :=
+  Input.parseTaskInput_enc t hne tail ht
 
 end Ergo
